@@ -141,6 +141,35 @@ CHECKS['C19'] = dict(
    note='real-code schedules sampled (seeded random + priority schedules with change points biased to m_state accesses), not TLC-enumerated; sequentially consistent; the protocol models are bound to the code by the abstract events only (no step replay)',
    technique='PlusCal protocol models (safety + liveness) checked by TLC + TLC trace validation of recorded real executions against OnceAbs / EtsAbs',
    design='4 (C19)')
+CHECKS['C02'] = dict(
+   text='TLC model-checks Monitor (concurrent_monitor prepare_wait / commit_wait / cancel_wait against notify, the futex semaphore word 0/1/2 and the monitor mutex) '
+        'under sequential consistency and under x86-TSO with the client store buffered, for 1-2 sleepers x 1-2 notifiers, plus termination of every sleeper under '
+        'weak fairness; the full fences the protocol relies on are facts observed on the running code (hook stream of prepare_wait / notify_one / notify_all) and fed '
+        'into the TSO model, a model without the notifier fence is the vacuity control; PoolState (advertise_new_work vs out_of_work, busy state) and Demand '
+        '(thread_request_serializer pending-delta aggregator: no lost delta, estimate = min(limit, total)). Real blocking calls - raw concurrent_monitor '
+        '(notify_all / notify_one / notify(pred) / abort_all), bounded queue push/pop, tbb::mutex, rw_mutex incl. upgrade, task_group::wait of an external thread, '
+        'task_arena::execute without a free slot, a suspended task resumed from a foreign thread, and enqueue-only programs with real RML worker threads (which are '
+        'logical threads of the cooperative scheduler as well: arenas of concurrency 1 / 2, zero-worker soft limit via global_control, two arenas) - run on logical '
+        'threads under seeded random and PCT-style priority schedules at atomic-access granularity with total futex emulation, with and without emulated store '
+        'buffers, and with scenario variants that enter the sleeping paths on purpose; Prod/Inv/Res/Enq/Begin/Stuck events are validated by TLC against WakeAbs: a '
+        'state in which nothing can run although a blocked condition holds or an enqueued task is pending is rejected.',
+   note='real-code schedules sampled, not TLC-enumerated; futex semantics emulated; TSO only (no weaker reorderings); the Monitor model covers notify_all, the other notifications are bound through the real-code scenarios only',
+   technique='PlusCal protocol models (SC + TSO + liveness) checked by TLC with memory-order facts extracted from the code + TLC trace validation of real blocking calls under a cooperative scheduler with stuck detection',
+   design='4 (C02)')
+CHECKS['C16'] = dict(
+   text='TLC model-checks Market (transcription of market::update_allotment / adjust_demand / set_active_num_workers and arena::update_request) for every call '
+        'sequence of depth 6 (8 thorough) over 3-4 clients on 1-3 priority levels: granted workers sum to min(total demand, limit), nobody gets more than it asked '
+        'for, a lower priority level is served only when the higher ones are satisfied, the soft-limit-0 / mandatory rule; and Demand (no demand delta lost on the way '
+        'to the thread server). Seeded random call sequences (3 client configurations) are applied to a real r1::market with real arenas as clients; the requests the '
+        'arenas computed and the allotment vectors are validated by TLC (TraceMarket: the property invariants evaluated on the observed state are the verdict, '
+        'disagreement with the transcription is counted as drift). Real task_arenas (11-16 shapes of max_concurrency / reserved slots / external threads / tasks / '
+        'enqueues / global_control limit / observer) run with external logical threads and real RML workers as logical threads under seeded random / PCT cooperative '
+        'schedules, each run in a fresh process; current_thread_index, per-arena in-flight sets, worker identities and observer callbacks are validated by TLC '
+        'against ArenaAbs (index below the bound and pairwise distinct, workers never in reserved slots, concurrency bound, at most L-1 busy workers, one exit per '
+        'entry on the same thread); isolation scenarios are validated against SchedAbs.',
+   note='arena schedules sampled; occupancy is sampled inside user bodies; the worker budget is checked for limits set before any parallel work starts; known finding: two external threads inside task_arena(1,1) (DESIGN 6.11)',
+   technique='TLA+ function specification checked by TLC + TLC trace validation of the real market and of real arenas (externals and RML workers under the cooperative scheduler)',
+   design='4 (C16), 6.11')
 REASON_PENDING = 'check not built yet in this round (planned in DESIGN.md section 4); no verdict is claimed'
 m = {
  'version': 1,
